@@ -5,6 +5,8 @@ package vcore
 import (
 	"encoding/json"
 	"fmt"
+	"hash"
+	"hash/fnv"
 	"os"
 	"os/exec"
 	"path/filepath"
@@ -132,6 +134,8 @@ func Main(props map[string]*Prop) int {
 		return worker(p, tier)
 	case "replay":
 		return replayWorker(p, tier)
+	case "det":
+		return detWorker(p, tier)
 	default:
 		if f := os.Getenv("VERIF_REPLAY"); f != "" {
 			return replayParent(p, tier, f)
@@ -751,3 +755,42 @@ func replayWorker(p *Prop, tier string) int {
 	fmt.Printf("VIOLATION property=%s replay=%s\n", p.ID, file)
 	return 1
 }
+
+// detWorker prints one line per seed: seed, hash of (draws, events, violation signature). Used by
+// bin/selftest to prove that a run is a pure function of its seed (in-process worlds).
+func detWorker(p *Prop, tier string) int {
+	wd := os.Getenv("VERIF_WDIR")
+	os.MkdirAll(wd, 0755)
+	if p.Init != nil {
+		if err := p.Init(wd, tier); err != nil {
+			fmt.Fprintln(os.Stderr, "verif: init:", err)
+			return 2
+		}
+	}
+	n, _ := strconv.Atoi(os.Getenv("VERIF_DET_SEEDS"))
+	if n == 0 {
+		n = 30
+	}
+	seed := baseSeed(tier)
+	for k := 0; k < n; k++ {
+		s := mix(seed, 0, uint64(k))
+		c := NewCtx(NewRandom(s))
+		c.Tier, c.Dir = tier, wd
+		v := runOnce(p, c)
+		h := fnvNew()
+		for _, d := range c.Src.Rec {
+			fmt.Fprintf(h, "%s=%d/%d;", d.L, d.V, d.N)
+		}
+		for _, e := range c.Events {
+			fmt.Fprintf(h, "%s;", e)
+		}
+		sig := "-"
+		if v != nil {
+			sig = v.Sig()
+		}
+		fmt.Printf("DET %d %016x draws=%d events=%d %s\n", s, h.Sum64(), len(c.Src.Rec), len(c.Events), sig)
+	}
+	return 0
+}
+
+func fnvNew() hash.Hash64 { return fnv.New64a() }
